@@ -199,7 +199,59 @@ class _ATAt:
     def __getitem__(self, i):
         return _ATAt(self.a, _norm_index(i))
 
+    def _concrete(self, v, add=False):
+        """x.at[idx].set(v) evaluated entry by entry when idx addresses the concrete axes only (full slices on the named ones) with
+        concrete integers / slices and v is a scalar or matches the selected block; None when that does not apply"""
+        a = self.a
+        if not isinstance(a, AT) or _is_opaque(v):
+            return None
+        idx = self.idx if isinstance(self.idx, tuple) else (self.idx,)
+        if any(x is Ellipsis or x is None for x in idx) or len(idx) > len(a.axes):
+            return None
+        idx = idx + (slice(None),) * (len(a.axes) - len(idx))
+        cidx = []
+        for ax, x in zip(a.axes, idx):
+            if isinstance(x, slice):
+                parts = [x.start, x.stop, x.step]
+                if not isinstance(ax, int):
+                    if parts != [None, None, None]:
+                        return None
+                    continue
+                try:
+                    parts = [None if q is None else int(_dim(q)) for q in parts]
+                except Exception:
+                    return None
+                cidx.append(slice(*parts))
+            else:
+                if not isinstance(ax, int):
+                    return None
+                try:
+                    cidx.append(int(_dim(x)))
+                except Exception:
+                    return None
+        vv = to_at(v)
+        if any(not isinstance(x, int) for x in vv.axes):
+            return None
+        data = a.data.copy()
+        try:
+            block = data[tuple(cidx)]
+            val = vv.data if vv.axes else vv.data[()]
+            if isinstance(block, np.ndarray):
+                upd = np.empty(block.shape, dtype=object)
+                upd[...] = val
+                if add:
+                    upd = block + upd
+                data[tuple(cidx)] = upd
+            else:
+                data[tuple(cidx)] = (block + val) if add else val
+        except (ValueError, IndexError):
+            return None
+        return AT(a.axes, data)
+
     def set(self, v, **k):
+        r = self._concrete(v)
+        if r is not None:
+            return r
         return term('at_set', self.a, self.idx, v)
 
     def get(self, **k):
@@ -1094,6 +1146,17 @@ def _logical_or(a, b):
 _sum_sym = symaware('sum', alg.jnp_sum)
 
 
+def _count_nonzero_model(x, *a, **k):
+    """count_nonzero of a comparison counts its true entries; count_nonzero of an ARRAY x is written through the count of its zero
+    entries, size(x) - count_nonzero(x == 0), so that `x.size - count_nonzero(x)` and `count_nonzero(x == 0)` are the same term"""
+    if a or {kk for kk, v in k.items() if v is not None}:
+        return term('count_nonzero', x, *a, **k)
+    if isinstance(x, Sym) and not isinstance(x, Pred) and x.op not in ('cond', 'where'):
+        zeros = term('count_nonzero', Pred.compare(lift(x), 0, '=='))
+        return lift(Sym('.size', x)) - lift(zeros)
+    return term('count_nonzero', x)
+
+
 def _jnp_sum_model(x, *a, **k):
     """the sum of a boolean comparison counts its true entries: canonical form count_nonzero(pred)"""
     if isinstance(x, Pred) and not a and not {kk for kk, v in k.items() if v is not None}:
@@ -1616,7 +1679,7 @@ def make_world_externals(world_ref):
              iinfo=IInfo, int32='int32', float32='float32', float64='float64', int64='int64',
              inf=Poly.atom(('K', 'inf')), nan=Poly.atom(('K', 'nan')), pi=Poly.atom(('K', 'pi')),
              isnan=_isnan, isfinite=(lambda x: term('isfinite', x)), isinf=(lambda x: term('isinf', x)), any=_jnp_any, all=_jnp_all, logical_and=_logical_and, logical_not=_logical_not, logical_or=_logical_or,
-             count_nonzero=opaque_fn('count_nonzero'), argsort=opaque_fn('argsort'),
+             count_nonzero=_count_nonzero_model, argsort=opaque_fn('argsort'),
              unravel_index=_unravel_index, divmod=_divmod_model,
              take=_take, einsum=_einsum_model, split=_split_model, cumsum=opaque_fn('cumsum'),
              sqrt=_sqrt_model, exp=opaque_fn('exp'), where=_where, prod=opaque_fn('prod'),
